@@ -44,6 +44,15 @@ func (k Keeper) OnRecvPacket(
 		return ack
 	}
 	receiver, _ := sdk.AccAddressFromBech32(data.Receiver)
+	// only an account whose address is an EVM address (20 bytes) can own the converted tokens:
+	// common.BytesToAddress keeps the last 20 bytes of a longer address (e.g. a 32-byte interchain
+	// account) and pads a shorter one, i.e. it would credit an address that is not the receiver's
+	if len(receiver) != common.AddressLength {
+		event.Status = types.STATUS_FAILED
+		event.Message = "receiver address is not an EVM address, vouchers are left unconverted"
+		_ = ctx.EventManager().EmitTypedEvent(event)
+		return ack
+	}
 	denom, err := types.IBCDenom(packet.GetDestPort(), packet.GetDestChannel(), data.Denom)
 	if err != nil {
 		event.Status = types.STATUS_FAILED
